@@ -417,6 +417,64 @@ impl Curve {
 
 pub static GEN: Lazy<Pt> = Lazy::new(|| CURVE.generator());
 
+/// Deterministic vectors of the model's specification functions as JSON lines
+/// (cross-checked against the Python transcription refmodel/spec.py by setup.sh).
+pub fn print_spec_vectors() {
+    let c = &*CURVE;
+    let f = &*Q;
+    // a simple deterministic sequence of field elements
+    let mut x = hex("1234567890abcdef1234567890abcdef1234567890abcdef1234567890abcdef") % &f.m;
+    let mut next = || {
+        x = (f.sq(&x) + 0x9e3779b9u32) % &f.m;
+        x.clone()
+    };
+    let mut inputs: Vec<N> = vec![n(0), n(1), n(2), n(3), n(4), n(8), &f.m - 1u32, &f.m - 2u32, (&f.m - 1u32) >> 1, (&f.m + 1u32) >> 1, f.m.clone(), &f.m + 1u32];
+    for _ in 0..400 {
+        inputs.push(next());
+    }
+    let mut pts: Vec<Pt> = Vec::new();
+    for r0 in &inputs {
+        let r0 = r0 % &f.m;
+        let p = c.elligator_spec(&r0);
+        println!("{{\"kind\":\"elligator\",\"r0\":\"{:x}\",\"out\":\"{:x},{:x}\"}}", r0, p.x, p.y);
+        pts.push(p);
+    }
+    let g = c.generator();
+    let mut acc = c.identity();
+    for _ in 0..40 {
+        pts.push(acc.clone());
+        pts.push(c.other_rep(&acc));
+        acc = c.add(&acc, &g);
+    }
+    for (i, p) in pts.iter().enumerate() {
+        let s = c.encode_spec(p);
+        println!("{{\"kind\":\"encode\",\"x\":\"{:x}\",\"y\":\"{:x}\",\"out\":\"{:x}\"}}", p.x, p.y, s);
+        // decode of the encoding and of near misses
+        for cand in [s.clone(), &s + 1u32, (&f.m - &s) % &f.m, &s + &f.m] {
+            let out = match c.decode_int(&cand) {
+                Ok(p) => format!("{:x},{:x}", p.x, p.y),
+                Err(_) => "invalid".to_string(),
+            };
+            println!("{{\"kind\":\"decode\",\"s\":\"{:x}\",\"out\":\"{}\"}}", cand, out);
+        }
+        let q2 = &pts[(i * 7 + 3) % pts.len()];
+        let sum = c.add(p, q2);
+        println!("{{\"kind\":\"add\",\"x1\":\"{:x}\",\"y1\":\"{:x}\",\"x2\":\"{:x}\",\"y2\":\"{:x}\",\"out\":\"{:x},{:x}\"}}", p.x, p.y, q2.x, q2.y, sum.x, sum.y);
+    }
+    for s in &inputs {
+        let out = match c.decode_int(s) {
+            Ok(p) => format!("{:x},{:x}", p.x, p.y),
+            Err(_) => "invalid".to_string(),
+        };
+        println!("{{\"kind\":\"decode\",\"s\":\"{:x}\",\"out\":\"{}\"}}", s, out);
+    }
+    // internal consistency of the model itself
+    let k = dec("123456789012345678901234567890123456789");
+    assert_eq!(c.mul(&k, &g), c.mul_affine(&k, &g), "projective and affine scalar multiplication disagree");
+    assert_eq!(c.mul(&R.m, &g), c.t2(), "r*G must be (0,-1)");
+    assert!(c.valid(&g));
+}
+
 #[cfg(test)]
 mod tests {
     use super::*;
